@@ -21,6 +21,19 @@ MANIFEST = {
 }
 ASSUMPTIONS = ["unwrap_iov succeeds only on messages sealed by the peer's security context (integrity of the negotiated mechanism)",
                "a failed unwrap raises (pyspnego BadMICError and friends)"]
+PARTIAL = [
+    "C16_stub_is_unsealed_plaintext (the stub handed to the caller is the octets the security context returned for the sealed region) is proved for the real call shape under the side "
+    "condition 24 <= frag_len - auth_len - 8 (the declared lengths leave room for the 24 RESPONSE header octets in front of the security trailer); the degenerate accepted reply with "
+    "frag_len - auth_len - 8 = 23 (seven body octets, an EMPTY stub) is not covered by that theorem (C16_sealed_only still applies to it); and it assumes that unwrap keeps the body "
+    "length on success (true of the toy context, C16_toy_context; true of NTLM / Kerberos stream sealing; not proved of pyspnego)",
+    "C16_altered_rejected_ideal is the IdealLaws form for an abstract relation sealed_by ('the peer\'s context produced this sealed body and signature for some plaintext, covering "
+    "header and trailer iff header signing is on'): a reply that is no such output is refused. That a particular ALTERATION (one flipped bit ..) turns an output into a non-output is a "
+    "property of the mechanism (MAC unforgeability), assumed (ASSUMPTIONS), shown for the toy context by the exhaustive bit-flip correspondence seal.tamper and the instance C16_stub_example",
+    "no separate theorem named C16_key_material: 'key material (the GetKey envelope) is decoded only from such a stub' is C16_stub_is_unsealed_plaintext composed with C17_result "
+    "(Properties/C17.v: the envelope is process_get_key_result of rs_stub_data of the Response that Seal.process_response returned)",
+    "replay protection and the sign-flag binding are the security context's (sequence numbers inside unwrap); the model takes unwrap as a function of (header, body, trailer, signature, "
+    "sign flag) for ONE call; seal.tamper checks replayed and wrong-mode replies are refused through the real AuthenticationProvider over the toy context",
+]
 RULE = ("an authentic sealed RESPONSE per (stub length, signature size, sign flag); alterations: security trailer removed (cleartext reply), every single-bit flip of every octet, "
         "pad_length / auth_len / frag_len / packet-type edits, replay under a different sequence number, sign flag mismatch; non-trivial = all; distinct = distinct case text")
 
@@ -114,11 +127,12 @@ class Cases:
         self.truth = {}  # case text key -> (sealed stub or None)
         self.ctx = ctx
 
-    def add(self, case, sealed_stub, authentic=False, wire=None):
+    def add(self, case, sealed_stub, authentic=False, wire=None, reject=None):
+        """reject: why this reply must be refused whatever stub it carries (replay, sign-flag mismatch, cleartext / forged reply)"""
         from ..val import enc
 
         self.cases.append(case)
-        self.truth[enc(case)] = (sealed_stub, authentic, wire)
+        self.truth[enc(case)] = (sealed_stub, authentic, wire, reject)
 
 
 def gen(ctx: Ctx) -> Cases:
@@ -132,16 +146,16 @@ def gen(ctx: Ctx) -> Cases:
             wire, stub = sealed_reply(data, 16, bool(sign), seq)
             cs.add([fl, 1, sign, 1, seq, wire], stub, authentic=True, wire=wire)
             # replay: the receiver expects another sequence number
-            cs.add([fl, 1, sign, 1, seq + 1, wire], stub)
+            cs.add([fl, 1, sign, 1, seq + 1, wire], stub, reject="a replayed reply (sealed under another sequence number)")
             # header signing negotiated differently from what the peer used
-            cs.add([fl, 1, 1 - sign, 1, seq, wire], stub)
+            cs.add([fl, 1, 1 - sign, 1, seq, wire], stub, reject="a reply sealed under the other header-signing mode than the one negotiated")
             # security trailer removed: cleartext reply with an attacker-chosen stub
-            cs.add([fl, 1, sign, 1, seq, clear_reply(b"EVIL" * 4)], stub)
-            cs.add([fl, 1, sign, 1, seq, clear_reply(stub)], stub)
+            cs.add([fl, 1, sign, 1, seq, clear_reply(b"EVIL" * 4)], stub, reject="a cleartext reply (no security trailer)")
+            cs.add([fl, 1, sign, 1, seq, clear_reply(stub)], stub, reject="a cleartext reply (no security trailer) carrying the genuine stub")
             # forged replies: cleartext stub, a security trailer with an arbitrary "signature" of every plausible size
             for al in (1, 2, 7, 8, 12, 15, 16, 17, 28, 32, 60):
-                cs.add([fl, 1, sign, 1, seq, forged_reply(b"EVIL" * 4, al)], stub)
-                cs.add([fl, 1, sign, 1, seq, forged_reply(stub, al, pad=len(stub) - n)], stub)
+                cs.add([fl, 1, sign, 1, seq, forged_reply(b"EVIL" * 4, al)], stub, reject="a forged reply (cleartext stub, made-up signature)")
+                cs.add([fl, 1, sign, 1, seq, forged_reply(stub, al, pad=len(stub) - n)], stub, reject="a forged reply (made-up signature) carrying the genuine stub")
             # forged replies whose security trailer octets (auth_type, auth_level, pad_length, reserved, context id) take
             # the values a reader might treat specially (0 = "none", other providers / levels, all ones)
             for al in (4, 16):
@@ -153,7 +167,7 @@ def gen(ctx: Ctx) -> Cases:
                         if m[toff + o] == v:
                             continue
                         m[toff + o] = v
-                        cs.add([fl, 1, sign, 1, seq, bytes(m)], stub)
+                        cs.add([fl, 1, sign, 1, seq, bytes(m)], stub, reject="a forged reply (cleartext stub, made-up signature, edited trailer)")
             # every single-bit flip
             step = 1 if (ctx.thorough or n <= 16) else 3
             for byte in range(0, len(wire), 1):
@@ -183,13 +197,15 @@ def make_pred(cs: Cases):
     from ..val import enc
 
     def pred(arg, out):
-        sealed_stub, authentic, wire = cs.truth.get(enc(arg), (None, False, None))
+        sealed_stub, authentic, wire, reject = cs.truth.get(enc(arg), (None, False, None, None))
         if not arg[1]:
             return None
         if isinstance(out, Err) or out is None:
             if authentic:
                 return f"an authentic sealed reply was refused ({out})"
             return None
+        if reject:
+            return f"{reject} was accepted: stub " + bytes(out)[:24].hex()
         if sealed_stub is None or bytes(out) != bytes(sealed_stub):
             return "a reply that the security context did not seal (or sealed with other content) was accepted: stub " + bytes(out)[:24].hex()
         if not authentic and wire is not None:
